@@ -480,12 +480,14 @@ func (se *SessionExecutor) handleSetVariable(reqCtx *util.RequestContext, sql st
 			return mysql.NewDefaultError(mysql.ErrWrongValueForVar, name, value)
 		}
 
-		// mysql 8.0.3 not support tx_read_only
-		if name == "tx_read_only" && !se.session.proxy.ServerVersionCompareStatus.LessThanMySQLVersion803 {
-			return se.setIntSessionVariable("transaction_read_only", onOffValue)
+		// tx_read_only and transaction_read_only are two names of one variable (mysql 8.0.3 only
+		// knows the second): keep it under one key, whatever the client called it, otherwise a pooled
+		// connection used by clients that spell it differently gets "transaction_read_only = 1,tx_read_only = DEFAULT"
+		if !se.session.proxy.ServerVersionCompareStatus.LessThanMySQLVersion803 {
+			return se.setIntSessionVariable(mysql.TransactionReadOnly, onOffValue)
 		}
 
-		return se.setIntSessionVariable(name, onOffValue)
+		return se.setIntSessionVariable(mysql.TxReadOnly, onOffValue)
 	case gaeaGeneralLogVariable:
 		value := getVariableExprResult(v.Value)
 		onOffValue, err := getOnOffVariable(value)
